@@ -13,10 +13,10 @@ import mc
 # per property: random-driver profiles (name, quick histories, thorough histories, steps or None),
 # feature sets, and the rule that makes a history non-trivial for it
 PLAN = {
-    "C01": dict(profiles=[("static", 48, 480, None), ("full", 16, 120, None)], features=["default", "alt"],
+    "C01": dict(profiles=[("static", 48, 480, None), ("full", 16, 120, None), ("edits", 8, 80, None)], features=["default", "alt"],
                 nontrivial=lambda s: s["mustopen"] > 0,
                 rule="history in which at least one (key, encapsulation) pair is obliged to open by the cover relation"),
-    "C02": dict(profiles=[("static", 48, 480, None), ("full", 16, 120, None)], features=["default", "alt"],
+    "C02": dict(profiles=[("static", 48, 480, None), ("full", 16, 120, None), ("edits", 8, 80, None)], features=["default", "alt"],
                 nontrivial=lambda s: s["mustnot"] > 0,
                 rule="history in which at least one (key, encapsulation) pair is forbidden to open"),
     "C03": dict(profiles=[("edits", 56, 500, None), ("big", 8, 80, None)], features=["default"],
@@ -37,7 +37,7 @@ PLAN = {
     "C10": dict(profiles=[("full", 40, 300, None), ("edits", 16, 150, None), ("revocation", 10, 100, None)], features=["default"],
                 nontrivial=lambda s: s["failing_unchanged"] > 0,
                 rule="history with a failing call on a master/user key whose before/after state was compared"),
-    "C11": dict(profiles=[("static", 24, 240, None), ("full", 32, 250, None)], features=["default", "alt"],
+    "C11": dict(profiles=[("static", 24, 240, None), ("full", 32, 250, None), ("edits", 16, 120, None)], features=["default", "alt"],
                 nontrivial=lambda s: s["encaps"] > 0 and s["keygens"] > 0,
                 rule="history with encapsulations and keys whose flavours were compared with the hints"),
     "C13": dict(profiles=[("full", 40, 300, None), ("disable", 16, 120, None)], features=["default", "alt"],
